@@ -109,6 +109,8 @@ def main():
     seed = int(os.environ.get("VERIF_SEED", "0") or 0)
     t0 = time.time()
     timeout_ms = 10000 if tier == "quick" else 60000
+    if tier == "thorough":
+        os.environ["PYVC_CVC5"] = "1"       # every unsat query is re-decided by cvc5 from its SMT-LIB export
     try:
         units = [u for u in U.all_units() if prop in U.unit_props(u)]
         if args.only:
@@ -122,9 +124,9 @@ def main():
             n = U.shards_for(u)
             cv = carve_for(all_known, u)
             if n <= 1:
-                tasks.append((u[0], u[1], u[2], timeout_ms, True, None, cv))
+                tasks.append((u[0], u[1], u[2], timeout_ms, True, None, cv, prop))
             else:
-                tasks.extend((u[0], u[1], u[2], timeout_ms, True, (i, n), cv) for i in range(n))
+                tasks.extend((u[0], u[1], u[2], timeout_ms, True, (i, n), cv, prop) for i in range(n))
         # longest first
         with mp.Pool(args.jobs, maxtasksperchild=1) as pool:
             shard_results = pool.map(U.run_unit, tasks, chunksize=1)
@@ -143,7 +145,10 @@ def main():
     samples = []
     vacuous = []
     carved = []
+    cvc5 = {"agree": 0, "unknown": 0, "disagree": 0, "seconds": 0.0}
     for r in results:
+        for k, v in (r.get("cvc5") or {}).items():
+            cvc5[k] = cvc5.get(k, 0) + v
         if r.get("crash"):
             crashed.append(r)
             continue
@@ -243,7 +248,10 @@ def main():
             "discharged": discharged,
             "checker_cmd": "python3-vt checks/check.py %s --tier %s" % (prop, tier),
             "trusted_base": TRUSTED_BASE,
-            "backend": {"z3": total},
+            "backend": {"z3_obligations": total, "cvc5_second_opinion_queries": {k: (round(v, 1) if k == "seconds" else v)
+                                                                                  for k, v in cvc5.items()} if tier == "thorough"
+                        else "thorough tier only"},
+            "assumed_contracts_not_verified": U.assumed_contracts(),
             "solver_seconds": round(solver_s, 2),
             "functions_under_contract": functions,
             "known_findings": [{"obligation": h.get("obligation"), "chi": h.get("chi", "always"),
@@ -280,6 +288,10 @@ def merge_shards(rs):
             continue
         m = out[u]
         m["obligations"] = m["obligations"] + r["obligations"]
+        if r.get("cvc5"):
+            mc = m.setdefault("cvc5", {})
+            for k, v in r["cvc5"].items():
+                mc[k] = mc.get(k, 0) + v
         m["seconds"] = max(m.get("seconds", 0), r.get("seconds", 0))
         for k in ("crash", "unsupported"):
             if r.get(k) and not m.get(k):
